@@ -18,7 +18,7 @@ RULE = ("2-6 initial systems with priorities in {0,1,2} (ties), 1-3 scripts (act
         "performs a removal or a higher/equal-priority insertion. Distinct = digest of the case.")
 EXHAUSTIVE_DOMAIN = ("queues of length 2..5 (quick 2..4) over priorities {0,1,2}^n x every actor position x one action "
                      "(remove each target incl. self, or add at priority 0..3), 3 timesteps, action at t=1")
-ASSUMPTIONS = ["only fresh ids are registered mid-timestep (re-registration of a removed object is C01's domain)",
+ASSUMPTIONS = ["mid-timestep registrations are new objects (fresh or re-used ids) or the very object that was removed in an earlier timestep",
                "whether a system registered mid-timestep runs in that timestep is left open (0 or 1 runs accepted)"]
 
 
@@ -65,6 +65,7 @@ class World:
         self.nontrivial = False
         self.labels = set()
         self.free_ids = []       # ids of removed systems, reusable by a *new* object
+        self.graveyard = []      # (token, timestep of removal): the very object may be registered again in a LATER timestep
         self.eq_systems = bool(case.get("eq"))
         self.win = {}            # token -> (start, frequency): most systems are always on, some have a sparse window
         wins = list(case.get("windows") or [])
@@ -103,6 +104,7 @@ class World:
     def unregister(self, tok):
         self.model.systems.remove_system(self.all[tok].id)
         self.free_ids.append(self.all[tok].id)
+        self.graveyard.append((tok, self.model.systems.timestep))
         del self.live[tok]
         self.events.append(("removed", tok))
 
@@ -146,7 +148,19 @@ class World:
                 self.labels.add(f"add-{rel}")
                 if rel != "lower" and mypos is not None and mypos < len(order) - 1:
                     self.nontrivial = True
-                if len(self.all) < self.max_total:
+                back = [tk for tk, when in self.graveyard if when < t and tk not in self.live and self.model.systems[self.all[tk].id] is None]
+                if act.get("same") and back:
+                    # the very object that was removed in an EARLIER timestep is registered again (it has not run in this one)
+                    tk = back[int(act.get("prio", 0)) % len(back)]
+                    obj = self.all[tk]
+                    if obj.id in self.free_ids:
+                        self.free_ids.remove(obj.id)
+                    self.model.systems.add_system(obj)
+                    self.seq += 1
+                    self.live[tk] = (obj.priority, self.seq)
+                    self.events.append(("added", tk))
+                    self.labels.add("same-object-registered-again")
+                elif len(self.all) < self.max_total:
                     if act.get("reuse") and self.free_ids:
                         self.labels.add("add-reused-id")
                         self.register(prio, sid=self.free_ids.pop(), win=act.get("win"))
@@ -249,7 +263,8 @@ def run_case(case):
 def _action():
     rem = st.fixed_dictionaries({"a": st.just("remove"), "target": st.integers(0, 7)})
     win = st.sampled_from([None, None, None, [0, 1], [1, 1], [0, 2], [1, 2], [2, 3], [0, 5]])
-    add = st.fixed_dictionaries({"a": st.just("add"), "prio": st.integers(0, 3), "reuse": st.booleans(), "win": win})
+    add = st.fixed_dictionaries({"a": st.just("add"), "prio": st.integers(0, 3), "reuse": st.booleans(), "win": win,
+                                 "same": st.sampled_from([False, False, True])})
     dup = st.fixed_dictionaries({"a": st.just("add_dup"), "target": st.integers(0, 7), "prio": st.integers(0, 3)})
     boom = st.just({"a": "raise"})
     return wone_of(rem, rem, rem, rem, add, add, dup, dup, boom)
